@@ -426,9 +426,15 @@ int main(int argc, char *argv[])
       else
     if (strcmp(argv[i], "-disasm_range") == 0)
     {
+       i++;
+       if (i >= argc)
+       {
+         printf("Error: -disasm_range needs a range\n");
+         exit(1);
+       }
        command = "disasm";
        command += ' ';
-       command += argv[++i];
+       command += argv[i];
        mode = MODE_DISASM;
     }
       else
